@@ -385,7 +385,8 @@ fn len_steps(tr: &mut Tr, c: &CodeSpec, opt: u8, upto: u64) {
     tr.emit(Ev::new("len_steps").code(c, opt).b("monotone", mono).u64("upto", covered).raw("steps", &js));
 }
 
-fn cp_iter<F: Fn(u64) -> usize>(tr: &mut Tr, id: i64, f: F, max_yields: usize, max_evals: u64) {
+/// returns true iff the iterator ended (returned None)
+fn cp_iter<F: Fn(u64) -> usize>(tr: &mut Tr, id: i64, f: F, max_yields: usize, max_evals: u64) -> bool {
     // watchdog: a next() that evaluates f more than max_evals times is reported as a hang
     let evals = Cell::new(0u64);
     let g = |x: u64| {
@@ -405,15 +406,16 @@ fn cp_iter<F: Fn(u64) -> usize>(tr: &mut Tr, id: i64, f: F, max_yields: usize, m
             }
             Ok(None) => {
                 tr.emit(Ev::new("cp_next").i("o", id).s("res", "none").u64("x", 0).i("fx", 0).i("evals", evals.get() as i64));
-                return;
+                return true;
             }
             Err(_) => {
                 let res = if evals.get() > max_evals { "hang" } else { "panic" };
                 tr.emit(Ev::new("cp_next").i("o", id).s("res", res).u64("x", 0).i("fx", 0).i("evals", evals.get() as i64));
-                return;
+                return false;
             }
         }
     }
+    false
 }
 
 pub fn changepoints(tr: &mut Tr, seed: u64, full: bool, upto_log: u32) -> (u64, u64) {
@@ -436,8 +438,9 @@ pub fn changepoints(tr: &mut Tr, seed: u64, full: bool, upto_log: u32) -> (u64, 
         tr.emit(Ev::new("cp_new").i("o", id).s("kind", "code").code(&c, 0));
         let unbounded = matches!(c.f, Fam::Unary) || (c.f == Fam::Rice && c.k < 40) || (c.f == Fam::Golomb && c.b < (1 << 40));
         let cc = c;
-        cp_iter(tr, id, move |x| lib_len(&cc, 0, x), if unbounded { 60 } else { 400 }, 1_000_000);
-        if !unbounded {
+        let ended = cp_iter(tr, id, move |x| lib_len(&cc, 0, x), if unbounded { 60 } else { 400 }, 1_000_000);
+        // Kraft over the brackets, for the length functions whose iterator ran to its end
+        if ended {
             tr.emit(Ev::new("cp_kraft").i("o", id));
         }
         tests += 1;
